@@ -18,7 +18,7 @@ def main():
     if ck.counters.get("bfs_cut_by_deadline"):
         ck.exhaustive = False
     ck.counters["distinct_nontrivial"] = ck.counters.get("states", 0)
-    ck.finish("breadth-first search to a fixpoint over operation histories of AdjEnvelope, AdjGSO, AdjSVD, AdjCholDec (alphabet: unknowns, residuals, sum_of_squares, defect, q_xx(i,j) all pairs, q_bb, q0_xx, q_bx, lindep(i), min_x(), min_x(S1), min_x(S2), reset) and GNU_gama::Adj (x, r, rtr, defect, q_xx, q_bb, set_algorithm x4, set(new input data) x3: the data of the unit, the same system with the regularisation list shifted by one unknown, with a list of another length) on a fixed family of regular and singular problems (regularisation subsets include ones that cannot fix the datum: the refusal must repeat), and of LocalNetwork objects built by the real parser from 5 generated networks (regular 2-D, free levelling loop, free 2-D with defect 3, a 2-D 'bridge' whose first observation alone joins two sub-networks, a 3-D polar network with instrument / target heights; alphabet: solve, residuals, trans_VWV, degrees_of_freedom, null_space, m_0, counts, qxx, qbb, stdev_obs, wcoef_res, stdev_res, studentized_residual, obs_control, unknown_stdev, std_error_ellipse, lindep, cond, conf_int_coef, huge_abs_terms, connected_network, set_algorithm x4, update_points/observations/residuals/adjustment, set_m_0_apriori/aposteriori, conf_pr x2, unknown_table (unknown_type/unknown_pointid of every unknown), status change of the first / last free xy point to fixed and back through PD + update_points, first observation / whole first cluster passive and back + update_observations, instrument / target heights of an observation set to zero and back + refine_obsdh_reductions + update_observations, refused calls conf_pr(1.5) / conf_pr(0) (must throw and change nothing); the LocalNetwork configuration space alg x m0 x conf-pr x status x activity is explored as four complete sub-alphabets (alg x m0 x conf-pr, alg x status, alg x activity, status x activity), thorough adds the full product); after the merged search every history of length <= 2 over the enabled alphabet is followed by every query WITHOUT state merging (state that the canonical key does not read cannot hide there); states merged by a canonical key read from private fields (stage, flags, cache keys and contents, regularisation list, cached vectors); invariant on every transition: answer == answer of a fresh object with the same configuration, solved once, asked only this; each history replayed twice (canon-on-replay); every (problem, class) runs in a forked child so that a sanitizer abort is attributed to the transition; state = distinct canonical key, non-trivial = all",
+    ck.finish("breadth-first search to a fixpoint over operation histories of AdjEnvelope, AdjGSO, AdjSVD, AdjCholDec (alphabet: unknowns, residuals, sum_of_squares, defect, q_xx(i,j) all pairs, q_bb, q0_xx, q_bx, lindep(i), min_x(), min_x(S1), min_x(S2), reset(same system), reset(bigger system: one more unknown and row)) and GNU_gama::Adj (x, r, rtr, defect, q_xx, q_bb, set_algorithm x4, set(new input data) x3: the data of the unit, the same system with the regularisation list shifted by one unknown, with a list of another length) on a fixed family of regular and singular problems (regularisation subsets include ones that cannot fix the datum: the refusal must repeat), and of LocalNetwork objects built by the real parser from 5 generated networks (regular 2-D, free levelling loop, free 2-D with defect 3, a 2-D 'bridge' whose first observation alone joins two sub-networks, a 3-D polar network with instrument / target heights; alphabet: solve, residuals, trans_VWV, degrees_of_freedom, null_space, m_0, counts, qxx, qbb, stdev_obs, wcoef_res, stdev_res, studentized_residual, obs_control, unknown_stdev, std_error_ellipse, lindep, cond, conf_int_coef, huge_abs_terms, connected_network, set_algorithm x4, update_points/observations/residuals/adjustment, set_m_0_apriori/aposteriori, conf_pr x2, unknown_table (unknown_type/unknown_pointid of every unknown), status change of the first / last free xy point to fixed and back through PD + update_points, first observation / whole first cluster passive and back + update_observations, instrument / target heights of an observation set to zero and back + refine_obsdh_reductions + update_observations, refused calls conf_pr(1.5) / conf_pr(0) (must throw and change nothing); the LocalNetwork configuration space alg x m0 x conf-pr x status x activity is explored as four complete sub-alphabets (alg x m0 x conf-pr, alg x status, alg x activity, status x activity), thorough adds the full product); after the merged search every history of length <= 2 over the enabled alphabet is followed by every query WITHOUT state merging (state that the canonical key does not read cannot hide there); states merged by a canonical key read from private fields (stage, flags, cache keys and contents, regularisation list, cached vectors); invariant on every transition: answer == answer of a fresh object with the same configuration, solved once, asked only this; each history replayed twice (canon-on-replay); every (problem, class) runs in a forked child so that a sanitizer abort is attributed to the transition; state = distinct canonical key, non-trivial = all",
               assumptions=["solver problems: loop5, loop5+datum, chain4, split4, reg4, empty-col, tri3 (see harness/histmc.cpp), unit covariance; network problems: data/c04/*.gkf", "accessors that kill the process when asked first are probed once per configuration in a nested fork and not executed again in unsolved states",
                            "answers compared with relative tolerance 1e-8"])
 
